@@ -9,6 +9,8 @@ import sys
 import tempfile
 
 VERIF = os.path.dirname(os.path.dirname(os.path.abspath(__file__)))
+import threading
+GITLOCK = threading.Lock()
 
 
 def sh(cmd, env=None):
@@ -21,20 +23,43 @@ def main():
     ids = sys.argv[1:] or sorted(d for d in os.listdir(base) if os.path.isdir(os.path.join(base, d)))
     man = json.load(open(os.path.join(VERIF, 'MANIFEST.json')))
     claimed = [c['property_id'] for c in man['checks']]
-    rows = []
-    for sid in ids:
+    from concurrent.futures import ThreadPoolExecutor
+    with ThreadPoolExecutor(8) as ex:
+        rows = [r for r in ex.map(lambda sid: one(base, sid, claimed), ids) if r]
+    sh(['git', '-C', '/repo', 'worktree', 'prune'])
+    for r in rows:
+        print(f'{r[0]:8s} breaks {r[1]}: own check {"REPORTS" if r[2] else "silent "}; reporting: {",".join(r[3]) or "-"}'
+              + (f'; analysis errors: {",".join(r[4])}' if r[4] else ''))
+
+
+def needs_from_notes(d):
+    import re
+    p = os.path.join(d, 'notes.md')
+    if not os.path.exists(p):
+        return None
+    lines = open(p).read().splitlines()
+    for pat in (r'need(ed|s)? to manifest', r'manifests? (only )?(when|for|if)', r'trigger', r'what it needs', r'needs?:'):
+        for l in lines:
+            if re.search(pat, l, re.I) and len(l) > 30:
+                return l.strip().lstrip('-* ').strip()[:700]
+    return None
+
+
+def one(base, sid, claimed):
+    if True:
         d = os.path.join(base, sid)
         wt = tempfile.mkdtemp(prefix='seedmatrix_')
         os.rmdir(wt)
         try:
-            rc, o = sh(['git', '-C', '/repo', 'worktree', 'add', '--detach', wt, 'HEAD'])
+            with GITLOCK:
+                rc, o = sh(['git', '-C', '/repo', 'worktree', 'add', '--detach', wt, 'HEAD'])
             rc, o = sh(['git', '-C', wt, 'apply', os.path.join(d, 'patch.diff')])
             if rc != 0:
                 # the patch was made against an earlier HEAD: try a 3-way apply
                 rc, o = sh(['git', '-C', wt, 'apply', '--3way', os.path.join(d, 'patch.diff')])
             if rc != 0:
                 print(sid, 'patch does not apply:', o[-200:])
-                continue
+                return None
             evd = tempfile.mkdtemp(prefix='seedmatrix_ev_')
             env = dict(os.environ, SA_REPO_ROOT=wt, SA_EVIDENCE_DIR=evd)
             res, first = {}, {}
@@ -46,20 +71,23 @@ def main():
             shutil.rmtree(evd, ignore_errors=True)
             mp = os.path.join(d, 'meta.json')
             meta = json.load(open(mp))
+            if 'reported_when_first_run' not in meta:
+                # what the checks said when the change was first confirmed (before any rule was added because of it)
+                meta['reported_when_first_run'] = meta.get('checks_reporting_violation', [])
+            nd = needs_from_notes(d)
+            if nd:
+                meta['needs_to_manifest'] = nd
             meta['checks_exit_codes'] = res
             meta['checks_reporting_violation'] = sorted(p for p, r in res.items() if r == 1)
             meta['first_reports'] = first
             meta['detected_by_own_property_check'] = meta['breaks_property'] in meta['checks_reporting_violation']
             json.dump(meta, open(mp, 'w'), indent=1)
-            rows.append((sid, meta['breaks_property'], meta['detected_by_own_property_check'], meta['checks_reporting_violation'],
-                         [p for p, r in res.items() if r == 2]))
+            return (sid, meta['breaks_property'], meta['detected_by_own_property_check'], meta['checks_reporting_violation'],
+                    [p for p, r in res.items() if r == 2])
         finally:
-            sh(['git', '-C', '/repo', 'worktree', 'remove', '--force', wt])
+            with GITLOCK:
+                sh(['git', '-C', '/repo', 'worktree', 'remove', '--force', wt])
             shutil.rmtree(wt, ignore_errors=True)
-    sh(['git', '-C', '/repo', 'worktree', 'prune'])
-    for r in rows:
-        print(f'{r[0]:8s} breaks {r[1]}: own check {"REPORTS" if r[2] else "silent "}; reporting: {",".join(r[3]) or "-"}'
-              + (f'; analysis errors: {",".join(r[4])}' if r[4] else ''))
 
 
 if __name__ == '__main__':
